@@ -1,11 +1,12 @@
-"""Known findings: read-only list committed in /verif/known_findings.json.
+"""Known findings: read-only list committed in /verif/known_findings.json (never written at run time).
 
-Each entry: {id, property, deviation, what, program: {meta, steps}, at: step index (1-based, within steps),
-             asbuilt: observation fields recorded on the pinned tree, strict: what the property demands}.
-reexecute() runs the program on the current tree:
-  'still'     -> the code still fails exactly as recorded           (KNOWN-FINDING line)
-  'fixed'     -> the code now shows the strict observation          (nothing printed)
-  'different' -> neither: a different failure at the same site      (VIOLATION)
+Each entry: {id, properties, deviation, what, program: {meta, steps}, at: step index (1-based, within steps),
+             asbuilt: the observation {r, o, e, q, z} recorded on the pinned tree at that step,
+             strict (optional): the part of the observation the property demands instead}.
+reexecute() runs the program on the current tree and compares the observation at step `at`:
+  'still'   -> the code still fails exactly as recorded                    (KNOWN-FINDING line)
+  'fixed'   -> the code now shows the strict observation                   (nothing printed)
+  'changed' -> neither: the recorded failure is gone or looks different    (NOTE line; the scenario models decide)
 """
 import json
 import os
@@ -13,6 +14,36 @@ import os
 from . import driver, replay
 
 PATH = os.path.join(os.path.dirname(os.path.abspath(__file__)), '..', 'known_findings.json')
+
+# deviation branch of spec/H2.tla (Mark) -> the properties it contradicts, and what fails
+DEVIATIONS = {
+    'misuse_closes_stream': (['C06', 'C01'],
+                             'a send that is invalid in the current stream state raises ProtocolError AND moves the live stream '
+                             'to CLOSED, so later sends the RFC state permits are refused'),
+    'misuse_closes_connection': (['C19', 'C01'],
+                                 'a call that is invalid in the current connection state raises ProtocolError AND closes the '
+                                 'connection state machine although no GOAWAY was sent or received'),
+    'data_before_headers': (['C08'], 'a server can emit DATA / END_STREAM on a request stream before any response HEADERS'),
+    'failed_send_partial_state': (['C13', 'C01'],
+                                  'a send_headers/push_stream call that raises late (validation, trailers without END_STREAM, '
+                                  'priority) leaves the stream state machine and/or the HPACK encoder advanced'),
+    'client_accepts_request': (['C07', 'C06'],
+                               'a client accepts request HEADERS from the server on a never-promised even stream id and reports '
+                               'RequestReceived'),
+    'refused_push_forgotten': (['C20'],
+                               'a PUSH_PROMISE on a locally reset stream is refused with RST_STREAM but the promised id is not '
+                               'remembered: later frames on the promised stream are connection errors'),
+    'hpack_error_code': (['C18'], 'an undecodable header block is answered with GOAWAY(PROTOCOL_ERROR) instead of COMPRESSION_ERROR'),
+    'ack_data_when_closed': (['C19'], 'acknowledge_received_data emits WINDOW_UPDATE frames on a closed connection'),
+    'client_advertises_idle': (['C24', 'C08'], 'a client whose connection is still idle can emit an ALTSVC frame'),
+    'server_opens_stream': (['C08', 'C09'], 'a server can open a new stream with send_headers (response HEADERS on an unused even id)'),
+    'ack_per_key': (['C11'],
+                    'a SETTINGS ACK applies one pending value of EVERY key instead of the changes of the one frame it answers '
+                    '(ACK of the initial frame applies a later update_settings)'),
+    'update_settings_partial': (['C11', 'C12'],
+                                'update_settings with a later invalid value raises but keeps the earlier keys of the same call '
+                                'enqueued as pending'),
+}
 
 
 def load():
@@ -25,27 +56,26 @@ def for_property(pid):
     return [f for f in load().get('findings', []) if pid in f['properties']]
 
 
-def _sub(obs, fields):
-    return {k: obs.get(k) for k in fields}
+def run_program(prog, catalogue, at):
+    sess = driver.Session(prog['meta'])
+    obs = None
+    for s in prog['meta'].get('setup', []):
+        sess.step(replay.resolve(s, catalogue))
+    for i, s in enumerate(prog['steps'], 1):
+        obs = sess.step(replay.resolve(s, catalogue))
+        if i == at:
+            break
+    return obs
 
 
 def reexecute(kf, catalogue):
-    prog = kf['program']
     try:
-        sess = driver.Session(prog['meta'])
-        obs = None
-        for s in prog['meta'].get('setup', []):
-            sess.step(replay.resolve(s, catalogue))
-        for i, s in enumerate(prog['steps'], 1):
-            obs = sess.step(replay.resolve(s, catalogue))
-            if i == kf['at']:
-                break
+        obs = run_program(kf['program'], catalogue, kf['at'])
     except Exception as e:
         return 'harness', repr(e)
-    fields = list(kf['asbuilt'].keys())
-    got = _sub(obs, fields)
-    if got == kf['asbuilt']:
-        return 'still', got
-    if 'strict' in kf and got == kf['strict']:
-        return 'fixed', got
-    return 'different', {'expected_asbuilt': kf['asbuilt'], 'strict': kf.get('strict'), 'observed': got}
+    d = driver.diff(kf['asbuilt'], obs)
+    if not d:
+        return 'still', []
+    if 'strict' in kf and not driver.diff(kf['strict'], obs):
+        return 'fixed', d
+    return 'changed', d
